@@ -229,8 +229,11 @@ ZDD_ASSUME = [
     "R3: derived Ord on ZddRef is an arbitrary deterministic total function (proofs hold for either answer)",
     "A1: node ids never wrap: the table holds fewer than 2^32-2 nodes (machine arithmetic treated as mathematical at `len as u32`)",
     "derived Clone of UniqueTable yields an equal table (assumed clone contract) — used by the standalone Zdd operations only",
-    "Not under any verifier: ZddArena::from_set, ZddArena::contains (sort_unstable/dedup), ZddArena::gc top-level glue (closure with captured &mut), "
-    "SharedArena lock wrappers, Zdd::to_sets / Iterator trait impls (only the inherent `next` bodies are verified)",
+    "R10/R11/R12: std iterator desugarings (slice::Iter, Map, collect, Rev visit every element once in (reverse) order)",
+    "R13: slice::sort_unstable / Vec::dedup / slice::to_vec (at u32) have their documented contracts (assumed)",
+    "termination of ArenaIterator::next and ZddIterator::next is NOT proved; iteration completeness ('each member exactly once') is NOT proved; "
+    "card(r) is the structural count (the lemma card == number of member sets is not written)",
+    "Not under any verifier: SharedArena lock wrappers, Zdd::to_sets / the Iterator trait impls (only the inherent `next` bodies), debug.rs",
 ]
 
 def zdd_witness(scratch):
